@@ -12,6 +12,7 @@ from mc import refmodel, sim, wire as W
 
 ID = "C04"
 LEVEL = "exploration"
+ISOLATE_SHARDS = True        # every shard runs in a forked child of a pristine worker (mc/core.py)
 RULE = ("every (element type, reply budget B, tag length n, start i, count c) read transfer driven to completion; every "
         "composition of a write range into consecutive Write Tag Fragmented requests, in every order for <= 4 fragments. "
         "non-trivial = transfers needing >= 2 fragments (reads) / >= 2 fragments (writes); all cases distinct by construction")
@@ -257,3 +258,9 @@ def replay(case):
     item = (item[0], item[1], item[2], item[3] if not isinstance(item[3], list) else list(item[3]))
     shard(acc, item, "thorough", 0, stop_at=case["upto"])
     return [v["msg"] for v in acc.violations if v["case"].get("upto") == case["upto"]]
+
+
+def preload():
+    """import the code under test once in the (pristine) worker; shard children are forked from it"""
+    from mc import sim as _sim
+    _sim.mods()
